@@ -128,10 +128,22 @@ private theorem defaultChanged_self (a : ArgD) : defaultChanged a a = false := b
   unfold defaultChanged
   cases a.hasDefault <;> simp
 
+theorem compatRetype_self (cls : String) (k : List (String × String)) (t : Ty) : compatRetype cls k t t = [] := by
+  unfold compatRetype
+  split <;> simp
+
+private theorem compatRetypes_self (cls : String) (key : ArgD → ArgD → List (String × String)) (l : List ArgD)
+    (h : Uniq ArgD.name l) : compatRetypes cls key l l = [] := by
+  unfold compatRetypes
+  apply flatMap_nil
+  intro a ha
+  rw [h a ha]
+  simp [compatRetype_self]
+
 private theorem diffFieldArguments_self (p : String) (f : FieldD) (h : Uniq ArgD.name f.args) :
     diffFieldArguments p f f = [] := by
   unfold diffFieldArguments
-  rw [filterMap_nil, map_filter_nil]
+  rw [filterMap_nil, map_filter_nil, compatRetypes_self _ _ _ h]
   · rfl
   · intro a ha; exact find_isSome_of_uniq ArgD.name f.args h a ha
   · intro a ha; rw [h a ha]; simp [safeIn_refl, defaultChanged_self]
@@ -139,7 +151,7 @@ private theorem diffFieldArguments_self (p : String) (f : FieldD) (h : Uniq ArgD
 private theorem diffField_self (p : String) (f : FieldD) (h : Uniq ArgD.name f.args) : diffField p f f = [] := by
   unfold diffField
   rw [diffFieldArguments_self p f h]
-  simp [safeOut_refl]
+  simp [safeOut_refl, compatRetype_self]
   cases hd : f.deprecated <;> simp [hd]
 
 private theorem diffFields_self (t : TypeD) (hf : Uniq FieldD.name t.fields)
@@ -187,7 +199,7 @@ theorem diff_refl (s : SchemaD) (u : UniqSchema s) (m : Nat) : diffSchema s s m 
       rw [u.directives d hd]
       have hargs : diffDirectiveArguments d d = [] := by
         unfold diffDirectiveArguments
-        rw [filterMap_nil, map_filter_nil]
+        rw [filterMap_nil, map_filter_nil, compatRetypes_self _ _ _ (u.dargs d hd)]
         · rfl
         · intro a ha; exact find_isSome_of_uniq ArgD.name d.args (u.dargs d hd) a ha
         · intro a ha; rw [u.dargs d hd a ha]; simp [safeIn_refl, defaultChanged_self]
@@ -256,7 +268,7 @@ theorem diff_refl (s : SchemaD) (u : UniqSchema s) (m : Nat) : diffSchema s s m 
     obtain ⟨a, b⟩ := p
     simp at he; subst he
     simp only
-    rw [filterMap_nil, map_filter_nil]
+    rw [filterMap_nil, map_filter_nil, compatRetypes_self _ _ _ (u.inputs a hm)]
     · rfl
     · intro f hf; exact find_isSome_of_uniq ArgD.name a.inputFields (u.inputs a hm) f hf
     · intro f hf; rw [u.inputs a hm f hf]; simp [safeIn_refl, defaultChanged_self]
